@@ -8,7 +8,11 @@ import (
 
 // TestC13 — histories of parse/exec/clone/cache operations vs. run-alone results.
 func TestC13(t *testing.T) {
+	loadCorpusRefs(t)
 	runBatches(t, "c13", func(t *rapid.T) {
+		if len(corpusRefs) > 0 && uni(t, "corpusop", 6) == 0 {
+			corpusOp(t)
+		}
 		c13Run(t)
 		count("runs", 1)
 	})
